@@ -90,7 +90,7 @@ fn gen_small_header(g: &mut Gen) -> Header {
     // extras: small integers mostly; sometimes values whose decoded form differs from what was built
     // (a NaN never compares equal to itself; a small bignum tag comes back as a plain integer; floats
     // come back in their shortest width) — none of which changes what the bytes on the wire are
-    let n = g.weighted(&[6, 3, 1, 1]);
+    let n = if g.ratio(1, 30) { 20 + g.below(12) } else { g.weighted(&[6, 3, 1, 1]) };
     for i in 0..n {
         let v = match g.weighted(&[6, 1, 1, 1, 1]) {
             0 => Value::from(g.range_i64(-5, 5)),
